@@ -260,8 +260,9 @@ def run(res, tier, seed, replay_script=None):
         obs, nobs, pend_setcoef, removed = {}, 0, None, False
         for st in steps:
             t = st.cmd.split()
-            if st.exc is not None and st.exc[0] == "hang" and not gl.still_hangs(drv, scripts[cid], st.cmd, wd):
-                stats["slow_calls_skipped"] = stats.get("slow_calls_skipped", 0) + 1     # completed under the long limit (or not re-run): slow, not a hang
+            if st.exc is not None and st.exc[0] == "hang":
+                # the statement says nothing about running time or termination (that is C08's clause): the case ends here, counted
+                stats["slow_calls_skipped"] = stats.get("slow_calls_skipped", 0) + 1
                 break
             if st.exc is not None and (st.exc[0] == "hang" or st.exc[0].startswith("crash") or st.exc[0].startswith("other")):
                 stats["violations"] += 1
@@ -329,7 +330,7 @@ def run(res, tier, seed, replay_script=None):
     if proof_broken and not res.violations:
         res.violation("proof", "proof obligations of Properties_C04.v no longer check (%d/%d) %s" % (props["discharged"], props["obligations"], res.coverage["forbidden_tokens"][:2]),
                       {"kind": "proof-break", "theorems": props["theorems"], "log": props["log"][-3000:]}, no_input=True)
-    res.coverage["slow_calls_completed_under_the_long_limit_skipped"] = stats.get("slow_calls_skipped", 0)
+    res.coverage["calls_not_returning_within_the_case_limit_not_judged"] = stats.get("slow_calls_skipped", 0)
     res.coverage.update({
         "evaluations": stats["observations"], "distinct_nontrivial": nontrivial,
         "rule": "case = make (random family/rule/dims/depth/order/limits/transform), load, then up to 3 of: refinement left pending / loaded / merged, "
